@@ -32,13 +32,18 @@ SPEED_RATIOS = [-2.0, -1.0, -0.5, 0.0, 1e-9, 0.5, 1.0, 1.5, 3.0]
 T_UNITS = [('Nm', 0.8), ('mNm', 15.0), ('kgfcm', 2.5)]
 W_UNITS = [('rad/s', 300.0), ('rpm', 6000.0), ('deg/s', 9000.0)]
 CUR_UNITS_Q = [('A', 'A'), ('mA', 'A'), ('A', 'uA')]
+# (Tmax, w0, factor on both currents): a 0.6 uNm motor written in kNm, a 294 Nm one in gfmm, very slow / very fast ones, nA currents
+SCALED = [(('kNm', 6e-10), ('rpm', 6000.0), 1), (('gfmm', 3e7), ('rad/s', 300.0), 1),
+          (('mNm', 15.0), ('rad/s', 2e-6), 1), (('mNm', 15.0), ('rph', 3.6e6), 1),
+          (('Nm', 0.8), ('rpm', 6000.0), 1e-9), (('kNm', 6e-10), ('rad/s', 2e-6), 1e-9)]
 CUR_UNITS_T = [(a, b) for a in ('A', 'mA', 'uA') for b in ('A', 'mA', 'uA')]
 
 
 def bounds(tier):
     return {'i0': I0 if tier == 'quick' else I0_T(), 'imax': IMAX if tier == 'quick' else IMAX_T(),
             'speed_ratios': SPEED_RATIOS, 'duty_grid': 41, 'boundary_ulps': list(range(-4, 5)),
-            'current_unit_pairs': len(CUR_UNITS_Q if tier == 'quick' else CUR_UNITS_T)}
+            'current_unit_pairs': len(CUR_UNITS_Q if tier == 'quick' else CUR_UNITS_T),
+            'scaled_motors': [[list(a), list(b), c] for a, b, c in SCALED]}
 
 
 def I0_T():
@@ -61,6 +66,13 @@ def shards(tier):
     for cu in (['A', 'A'], ['mA', 'A']):
         for (a, b) in ((0.1, 2.0), (0.7, 3.0), (0.0, 1.5)):
             out.append({'mode': 'history', 'T': T_UNITS[0], 'w': W_UNITS[1], 'cur': cu, 'i0': a, 'imax': b})
+    # the law is homogeneous: motors whose constants are numerically tiny or huge in the unit they are written in
+    for (tu, wu, cs) in SCALED:
+        out.append({'T': tu, 'w': wu, 'cur': None})
+        for (u0, um) in CUR_UNITS_Q[:2]:
+            out.append({'T': tu, 'w': wu, 'cur': [u0, um], 'i0s': i0s, 'imaxs': imaxs, 'cscale': cs})
+    out.append({'mode': 'history', 'T': SCALED[0][0], 'w': W_UNITS[1], 'cur': ['A', 'A'], 'i0': 0.1, 'imax': 2.0})
+    out.append({'mode': 'history', 'T': T_UNITS[0], 'w': W_UNITS[1], 'cur': ['A', 'A'], 'i0': 0.1e-9, 'imax': 2.0e-9})
     return out
 
 
@@ -300,7 +312,8 @@ def run_shard(shard, tier):
     if shard['cur'] is None:
         combos = [(None, None)]
     else:
-        combos = [(a, b) for a in shard['i0s'] for b in shard['imaxs'] if a < b]
+        cs = shard.get('cscale', 1)
+        combos = [(a * cs, b * cs) for a in shard['i0s'] for b in shard['imaxs'] if a < b]
     first = True
     for i0v, imaxv in combos:
         cu = shard['cur']
